@@ -30,7 +30,7 @@ From DV Require Import Model.PyPrims Model.Tree Model.Heap Model.HeapOps Model.C
   Proofs.C03Reseed Proofs.C03Order Proofs.C03Ops Proofs.C03SpecLinks Proofs.C03Ops2 Proofs.C03Unweighted
   Proofs.C03PruneLoops Proofs.C03Hist Proofs.C03Thms Proofs.C03More Proofs.C03More2 Proofs.C03More3
   Proofs.C03SetKids Proofs.C03RemoveSu Proofs.C03Resolve Proofs.C03Midpoint Proofs.C03Hist2 Proofs.C03Thms2
-  Proofs.C03Trav Proofs.C03PruneSpec Proofs.C03Bip Proofs.C03Variants.
+  Proofs.C03Trav Proofs.C03PruneSpec Proofs.C03Bip Proofs.C03Outgroup Proofs.C03Variants Proofs.C03ShuffleSpec.
 From DV Require Import Model.C03Bip.
 Import ListNotations.
 Open Scope Z_scope.
@@ -157,22 +157,66 @@ Theorem history_wf : forall ops h,
 Proof. exact history_wf2_l. Qed.
 Print Assumptions history_wf.
 
-(* the same for both forms (v) of the two sites repaired in the library: the seed guard of the
-   pruning loops (SeedNodeDeletionException instead of AttributeError) and prune_nodes honouring
-   suppress_unifurcations / update_bipartitions; the harness probes which form the library has *)
+(* the same for both forms (v) of the sites repaired in the library: the seed guard of the pruning loops
+   (SeedNodeDeletionException instead of AttributeError), prune_nodes honouring suppress_unifurcations /
+   update_bipartitions, and to_outgroup_position moving the outgroup to the front BEFORE re-seeding
+   (repair 1c81f78b; HeapOps.to_outgroup_position_r, also inside randomly_reorient); the harness probes
+   which form the library has.  covered_v v = covered2 for the old to_outgroup_position and covered3 for
+   the repaired one: covered3 h o is `live h og` for OToOutgroup og ub su (ANY live node, suppression or
+   not), "the script does not run out" for ORandomlyReorient, covered2 h o otherwise - the exclusions
+   of covered2 (outgroup_su_ok, reorient_ok) are gone with the repair. *)
 Theorem op_wf_variants : forall v h o,
-  WF h -> covered2 h o ->
+  WF h -> covered_v v h o ->
   exists h', WF h' /\ (run_op_v v o h = HOk h' \/ exists e, run_op_v v o h = HErr e h').
 Proof. exact op_wf_variants_l. Qed.
 Print Assumptions op_wf_variants.
+
+(* written out for the repaired method: every live node as outgroup, both values of
+   suppress_unifurcations and update_bipartitions; the seed as outgroup raises AssertionError and leaves
+   the tree alone *)
+Theorem to_outgroup_position_repaired_wf : forall (og : Z) (ub su : bool) (h : heap),
+  WF h -> live h og ->
+  exists h', WF h' /\ (to_outgroup_position_r og ub su h = HOk h' \/
+                       exists e, to_outgroup_position_r og ub su h = HErr e h').
+Proof. exact to_outgroup_r_ends. Qed.
+Print Assumptions to_outgroup_position_repaired_wf.
+
+(* ... with the resulting tree: the outgroup s first among its parent's children, then the re-seeding
+   at the parent with its suppression / encoding (the same specification functions as reseed_at) *)
+Theorem to_outgroup_position_repaired_spec :
+  forall (ub su : bool) (h : heap) (c : ctx) (p : Z) (x l e : option Z) (lft : list tree) (s : tree) (rgt : list tree),
+  WFt h (plug c (T p x l e (lft ++ s :: rgt))) ->
+  exists h', to_outgroup_position_r (t_id s) ub su h = HOk h' /\
+    WFt h' (spec_encode su false (not_rooted h) (reroot c (T p x l e (s :: lft ++ rgt)))) /\
+    next h' = next h /\ (rooted h' = rooted h \/ rooted h' = Some false).
+Proof. exact to_outgroup_r_ctx. Qed.
+Print Assumptions to_outgroup_position_repaired_spec.
+
+Theorem randomly_reorient_repaired_wf : forall (pick : nat) (perms : list (list nat)) (ub : bool) (h : heap),
+  WF h -> randomly_reorient_r pick perms ub h <> HFuel ->
+  exists h', WF h' /\ (randomly_reorient_r pick perms ub h = HOk h' \/
+                       exists e, randomly_reorient_r pick perms ub h = HErr e h').
+Proof. exact randomly_reorient_r_ends. Qed.
+Print Assumptions randomly_reorient_repaired_wf.
+
+(* the two argument classes that broke the old form (next two theorems), on the repaired form *)
+Theorem to_outgroup_position_repaired_former_classes :
+  (exists h', to_outgroup_position_r 1 false true
+                (of_tree (T 0 None None None [T 1 None None (Some 1024) [og_leaf 2; og_leaf 3]]) None) = HOk h' /\
+              abs h' = Some (T 1 None None (Some 1024) [og_leaf 2; og_leaf 3])) /\
+  (exists h', to_outgroup_position_r 2 false true
+                (of_tree (T 0 None None None [og_leaf 1; T 2 None None (Some 1024) [T 3 None None (Some 1024) [og_leaf 4; og_leaf 5]]]) None) = HOk h' /\
+              abs h' = Some (T 0 None None None [T 3 None None (Some 2048) [og_leaf 4; og_leaf 5]; og_leaf 1])).
+Proof. exact to_outgroup_r_former_classes. Qed.
+Print Assumptions to_outgroup_position_repaired_former_classes.
 
 Theorem history_wf_variants : forall v ops h,
   WF h -> valid_hist_v v ops h -> exists h', run_hist_v v ops h = Some h' /\ WF h'.
 Proof. exact history_wf_variants_l. Qed.
 Print Assumptions history_wf_variants.
 
-(* the two argument classes excluded for to_outgroup_position(suppress_unifurcations=True) are real
-   failures of the transcribed code (and of the library: known findings) *)
+(* the two argument classes excluded for the OLD to_outgroup_position(suppress_unifurcations=True) are real
+   failures of the code as it was transcribed before repair 1c81f78b (they replayed on the library) *)
 Theorem to_outgroup_su_refuted_seed :
   exists h og h', WF h /\ live h og /\ to_outgroup_position og false true h = HOk h' /\ ~ WF h'.
 Proof. exact C03More2.to_outgroup_su_refuted_seed. Qed.
@@ -497,3 +541,48 @@ Print Assumptions example_history_runs.
 Theorem example_full_history_valid : valid_hist2 ex_hist2 (of_tree ex_tree None).
 Proof. exact ex_hist2_valid. Qed.
 Print Assumptions example_full_history_valid.
+
+(* ---- Tree.shuffle_taxa(include_internal_nodes, rng), specification level (wave 6).
+   retax g t = t with the taxon of every node i replaced by g i (identities, child order, lengths, labels
+   kept); strip = retax (fun _ => None); node_taxa = the taxa of all nodes in preorder.  draws = the results
+   of rng.randrange.  A completed call - it returned, or it tripped its final assertion because two
+   selected nodes carried the same taxon - leaves a well-formed heap representing the same tree up to
+   taxa; the taxa of the selected nodes (the leaves, or all nodes) are a permutation of what they were,
+   every other node keeps its taxon, and a node has a taxon afterwards iff it had one before. ---- *)
+Theorem shuffle_taxa_spec : forall (ii : bool) (draws : list nat) (h : heap) (t : tree),
+  WF h -> abs h = Some t -> shuffle_taxa ii draws h <> HFuel ->
+  exists h', (shuffle_taxa ii draws h = HOk h' \/ shuffle_taxa ii draws h = HErr AssertErr h') /\
+    WF h' /\ abs h' = Some (retax (taxon h') t) /\ rooted h' = rooted h /\ next h' = next h /\
+    strip (retax (taxon h') t) = strip t /\
+    (let L := if ii then ids t else leaf_ids t in
+     Permutation (map (taxon h) L) (map (taxon h') L) /\
+     (forall j, ~ In j L -> taxon h' j = taxon h j)) /\
+    (forall j, taxon h' j = None <-> taxon h j = None).
+Proof. exact shuffle_taxa_spec_l. Qed.
+Print Assumptions shuffle_taxa_spec.
+
+(* the same in tree terms: leaf-taxon multiset preserved (default), all-node multiset with
+   include_internal_nodes; structure untouched *)
+Theorem shuffle_taxa_leaf_multiset : forall (ii : bool) (draws : list nat) (h : heap) (t : tree),
+  WF h -> abs h = Some t -> shuffle_taxa ii draws h <> HFuel ->
+  exists h' t', (shuffle_taxa ii draws h = HOk h' \/ shuffle_taxa ii draws h = HErr AssertErr h') /\
+    WF h' /\ abs h' = Some t' /\ rooted h' = rooted h /\ next h' = next h /\
+    strip t' = strip t /\
+    (if ii then Permutation (node_taxa t) (node_taxa t')
+     else Permutation (leaf_taxa t) (leaf_taxa t') /\
+          forall j, ~ In j (leaf_ids t) -> taxon h' j = taxon h j).
+Proof. exact shuffle_taxa_tree_l. Qed.
+Print Assumptions shuffle_taxa_leaf_multiset.
+
+Theorem shuffle_taxa_nonvacuous :
+  WF (of_tree exsh_tree None) /\ abs (of_tree exsh_tree None) = Some exsh_tree /\
+  (exists h', shuffle_taxa false [1; 0; 0]%nat (of_tree exsh_tree None) = HOk h' /\
+     abs h' = Some (T 0 (Some 20) None None
+       [T 1 None None (Some 2) [T 2 (Some 11) None (Some 3) []; T 3 (Some 10) None (Some 2) []];
+        T 4 None None (Some 2) [T 5 (Some 12) None (Some 2) []; T 6 None None (Some 4) []]])) /\
+  (exists h', shuffle_taxa true [0; 0; 0; 0]%nat (of_tree exsh_tree None) = HOk h' /\
+     abs h' = Some (T 0 (Some 20) None None
+       [T 1 None None (Some 2) [T 2 (Some 12) None (Some 3) []; T 3 (Some 11) None (Some 2) []];
+        T 4 None None (Some 2) [T 5 (Some 10) None (Some 2) []; T 6 None None (Some 4) []]])).
+Proof. exact shuffle_taxa_example. Qed.
+Print Assumptions shuffle_taxa_nonvacuous.
